@@ -222,7 +222,8 @@ theorem dijkstra_route_time_is_sum (c : Config α) (hadj : c.AdjConsistent) (hwf
   exact ⟨route, f, h1, h2, hf, hsum⟩
 
 /-- Dijkstra, every configuration with non-negative edge lengths and non-negative configured turn
-delays: distance and time never decrease from one route element to the next (table speeds need no
+delays: distance and time never decrease from the initial state to the first route element nor from
+one route element to the next (table speeds need no
 hypothesis: `create_time` fails the run on a non-positive speed or length). -/
 theorem dijkstra_route_monotone (c : Config α) (hadj : c.AdjConsistent) (hwf : c.wf = some 0)
     {source t : Nat} {sched : List Nat} {res : SearchResult α} (hts : t ≠ source)
@@ -233,11 +234,17 @@ theorem dijkstra_route_monotone (c : Config α) (hadj : c.AdjConsistent) (hwf : 
     (hjk : (c.feats[j]?).map (·.kind) = some (FeatKind.time ftu))
     (hlen : ∀ er ∈ c.edges, 0 ≤ er.dist) (hdel : RouteSums.DelaysNonneg c.access) :
     ∃ route, res.route = some route ∧ route ≠ [] ∧
+      (∀ (hr : 0 < route.length),
+        (∀ x y, (initialState c.feats)[i]? = some x → route[0].state[i]? = some y → x ≤ y) ∧
+        (∀ x y, (initialState c.feats)[j]? = some x → route[0].state[j]? = some y → x ≤ y)) ∧
       ∀ k (hk : k + 1 < route.length),
         (∀ x y, route[k].state[i]? = some x → route[k + 1].state[i]? = some y → x ≤ y) ∧
         (∀ x y, route[k].state[j]? = some x → route[k + 1].state[j]? = some y → x ≤ y) := by
   obtain ⟨route, h1, h2, hacc⟩ := dijkstra_route_links c hadj hwf hts hrun
-  exact ⟨route, h1, h2, RouteSums.route_monotone hacc ⟨hi, hik⟩ ⟨hj, hjk⟩ hlen hdel⟩
+  exact ⟨route, h1, h2,
+    fun hr => ⟨(RouteSums.route_distance_monotone hacc ⟨hi, hik⟩ hlen).1 hr,
+      (RouteSums.route_time_monotone hacc ⟨hj, hjk⟩ hdel).1 hr⟩,
+    RouteSums.route_monotone hacc ⟨hi, hik⟩ ⟨hj, hjk⟩ hlen hdel⟩
 
 /-- Dijkstra, every configuration: every slot other than "distance" and "time" reports its declared
 initial value on every route element. -/
